@@ -1,0 +1,218 @@
+//go:build verif
+
+// Contracts for the verification machinery in /verif (comment-only; compiled only with -tags verif).
+
+package doccomposer
+
+// ---- C17: add/remove patches follow ordered-set semantics ----
+//
+//@ func sliceToMap
+//@   loop 1
+//@     invariant fresh(values) && values != nil
+//@     invariant forall q int :: 0 <= q && q < _k ==> ids[q] in values
+//@     invariant forall s string :: s in values ==> (exists q int :: 0 <= q && q < _k && ids[q] == s)
+//@   ensures result != nil && fresh(result)
+//@   ensures forall q int :: 0 <= q && q < len(ids) ==> ids[q] in result
+//@   ensures forall s string :: s in result ==> (exists q int :: 0 <= q && q < len(ids) && ids[q] == s)
+//
+//@ func interfaceArray
+//@   loop 1
+//@     invariant len(iArr) == _k
+//@     invariant forall q int :: 0 <= q && q < _k ==> iArr[q] == boxed(values[q])
+//@   ensures len(result) == len(values)
+//@   ensures forall q int :: 0 <= q && q < len(values) ==> result[q] == boxed(values[q])
+//
+// add: the existing entries keep their positions; every new entry comes from the patch, in patch order, and is
+// neither an existing entry nor a repetition of an earlier new entry; every patch entry is present afterwards
+//@ func applyAddAlsoKnownAs
+//@   requires doc != nil
+//@   results r, err
+//@   loop 1
+//@     invariant arrOf(newURIs) == 0 || (arrOf(newURIs) != arrOf(addURIs) && arrOf(newURIs) != arrOf(old(strArr(doc["alsoKnownAs"]))))
+//@     invariant len(newURIs) >= len(old(strArr(doc["alsoKnownAs"])))
+//@     invariant forall q int :: 0 <= q && q < len(old(strArr(doc["alsoKnownAs"]))) ==> newURIs[q] == old(strArr(doc["alsoKnownAs"]))[q]
+//@     invariant forall q int :: 0 <= q && q < len(newURIs) ==> newURIs[q] in existingURIs
+//@     invariant forall p int, q int :: 0 <= p && p < q && q < len(newURIs) && q >= len(old(strArr(doc["alsoKnownAs"]))) ==> newURIs[p] != newURIs[q]
+//@     invariant forall q int :: len(old(strArr(doc["alsoKnownAs"]))) <= q && q < len(newURIs) ==> 0 <= src(newURIs, q) && src(newURIs, q) < _k && newURIs[q] == addURIs[src(newURIs, q)]
+//@     invariant forall p int, q int :: len(old(strArr(doc["alsoKnownAs"]))) <= p && p < q && q < len(newURIs) ==> src(newURIs, p) < src(newURIs, q)
+//@     invariant forall q int :: 0 <= q && q < _k ==> addURIs[q] in existingURIs
+//@   ensures err == nil && r == doc
+//@   ensures isType(doc["alsoKnownAs"], "[]any")
+//@   ensures len(unbox(doc["alsoKnownAs"], "[]any")) >= len(old(strArr(doc["alsoKnownAs"])))
+//@   ensures forall q int :: 0 <= q && q < len(old(strArr(doc["alsoKnownAs"]))) ==> unbox(doc["alsoKnownAs"], "[]any")[q] == boxed(old(strArr(doc["alsoKnownAs"]))[q])
+//@   ensures forall q int :: len(old(strArr(doc["alsoKnownAs"]))) <= q && q < len(unbox(doc["alsoKnownAs"], "[]any")) ==> (exists a int :: 0 <= a && a < len(strArr(entry)) && unbox(doc["alsoKnownAs"], "[]any")[q] == boxed(strArr(entry)[a]))
+//@   ensures forall p int, q int :: 0 <= p && p < q && q < len(unbox(doc["alsoKnownAs"], "[]any")) && q >= len(old(strArr(doc["alsoKnownAs"]))) ==> unbox(doc["alsoKnownAs"], "[]any")[p] != unbox(doc["alsoKnownAs"], "[]any")[q]
+//@   modifies mapOf(doc)
+//
+// remove: the result is the order-preserving selection of the entries that are not named by the patch
+//@ func applyRemoveAlsoKnownAs
+//@   requires doc != nil
+//@   results r, err
+//@   loop 1
+//@     invariant len(newURIs) <= _k
+//@     invariant forall p int :: 0 <= p && p < len(newURIs) ==> 0 <= src(newURIs, p) && src(newURIs, p) < _k && newURIs[p] == boxed(old(strArr(doc["alsoKnownAs"]))[src(newURIs, p)]) && !(old(strArr(doc["alsoKnownAs"]))[src(newURIs, p)] in urisToRemove) && dst(newURIs, src(newURIs, p)) == p
+//@     invariant forall i int :: 0 <= i && i < _k && !(old(strArr(doc["alsoKnownAs"]))[i] in urisToRemove) ==> 0 <= dst(newURIs, i) && dst(newURIs, i) < len(newURIs) && src(newURIs, dst(newURIs, i)) == i
+//@     invariant forall p int, q int :: 0 <= p && p < q && q < len(newURIs) ==> src(newURIs, p) < src(newURIs, q)
+//@   ensures err == nil && r == doc
+//@   ensures isType(doc["alsoKnownAs"], "[]any") && len(unbox(doc["alsoKnownAs"], "[]any")) <= len(old(strArr(doc["alsoKnownAs"])))
+//@   ensures forall p int :: 0 <= p && p < len(unbox(doc["alsoKnownAs"], "[]any")) ==> 0 <= src(newURIs, p) && src(newURIs, p) < len(old(strArr(doc["alsoKnownAs"]))) && unbox(doc["alsoKnownAs"], "[]any")[p] == boxed(old(strArr(doc["alsoKnownAs"]))[src(newURIs, p)])
+//@   ensures forall p int, q int :: 0 <= p && p < q && q < len(unbox(doc["alsoKnownAs"], "[]any")) ==> src(newURIs, p) < src(newURIs, q)
+//@   ensures forall p int, a int :: 0 <= p && p < len(unbox(doc["alsoKnownAs"], "[]any")) && 0 <= a && a < len(strArr(entry)) ==> old(strArr(doc["alsoKnownAs"]))[src(newURIs, p)] != strArr(entry)[a]
+//@   ensures forall i int :: 0 <= i && i < len(old(strArr(doc["alsoKnownAs"]))) && (forall a int :: 0 <= a && a < len(strArr(entry)) ==> strArr(entry)[a] != old(strArr(doc["alsoKnownAs"]))[i]) ==> (exists p int :: 0 <= p && p < len(unbox(doc["alsoKnownAs"], "[]any")) && unbox(doc["alsoKnownAs"], "[]any")[p] == boxed(old(strArr(doc["alsoKnownAs"]))[i]))
+//@   modifies mapOf(doc)
+//
+//@ func sliceToMapPK
+//@   loop 1
+//@     invariant fresh(values) && values != nil
+//@     invariant forall q int :: 0 <= q && q < _k ==> idOf(publicKeys[q]) in values
+//@     invariant forall s string :: s in values ==> (exists q int :: 0 <= q && q < _k && idOf(publicKeys[q]) == s)
+//@   ensures result != nil && fresh(result)
+//@   ensures forall q int :: 0 <= q && q < len(publicKeys) ==> idOf(publicKeys[q]) in result
+//@   ensures forall s string :: s in result ==> (exists q int :: 0 <= q && q < len(publicKeys) && idOf(publicKeys[q]) == s)
+//
+//@ func updateKey
+//@   loop 1
+//@     invariant forall q int :: 0 <= q && q < _k ==> keys[q] == cond(idOf(old(keys[q])) == idOf(key), key, old(keys[q]))
+//@     invariant forall q int :: _k <= q && q < len(keys) ==> keys[q] == old(keys[q])
+//@     invariant framed()
+//@   ensures forall q int :: 0 <= q && q < len(keys) ==> keys[q] == cond(idOf(old(keys[q])) == idOf(key), key, old(keys[q]))
+//@   modifies elems(keys)
+//
+//@ func convertPublicKeys
+//@   loop 1
+//@     invariant len(values) == _k
+//@     invariant forall q int :: 0 <= q && q < _k ==> values[q] == boxed(cast(pubKeys[q], "map[string]any"))
+//@   ensures len(result) == len(pubKeys)
+//@   ensures forall q int :: 0 <= q && q < len(pubKeys) ==> result[q] == boxed(cast(pubKeys[q], "map[string]any"))
+//
+// add: existing entries keep their position and id (an entry whose id is named by the patch is replaced in place by a
+// patch entry of that id); appended entries come from the patch; no id is introduced twice; every patch id is present
+//@ func applyAddPublicKeys
+//@   requires doc != nil
+//@   results r, err
+//@   loop 1
+//@     invariant arrOf(newPublicKeys) == 0 || (arrOf(newPublicKeys) != arrOf(addPublicKeys) && arrOf(newPublicKeys) != arrOf(old(pkArr(doc["publicKey"]))))
+//@     invariant len(newPublicKeys) >= len(old(pkArr(doc["publicKey"])))
+//@     invariant forall q int :: 0 <= q && q < len(old(pkArr(doc["publicKey"]))) ==> idOf(newPublicKeys[q]) == idOf(old(pkArr(doc["publicKey"]))[q]) && (newPublicKeys[q] == old(pkArr(doc["publicKey"]))[q] || (exists a int :: 0 <= a && a < _k && newPublicKeys[q] == addPublicKeys[a]))
+//@     invariant forall q int :: len(old(pkArr(doc["publicKey"]))) <= q && q < len(newPublicKeys) ==> (exists a int :: 0 <= a && a < _k && newPublicKeys[q] == addPublicKeys[a])
+//@     invariant forall q int :: 0 <= q && q < len(newPublicKeys) ==> idOf(newPublicKeys[q]) in existingPublicKeysMap
+//@     invariant forall s string :: s in existingPublicKeysMap ==> (exists q int :: 0 <= q && q < len(newPublicKeys) && idOf(newPublicKeys[q]) == s)
+//@     invariant framed()
+//@     invariant forall p int, q int :: 0 <= p && p < q && q < len(newPublicKeys) && q >= len(old(pkArr(doc["publicKey"]))) ==> idOf(newPublicKeys[p]) != idOf(newPublicKeys[q])
+//@     invariant forall a int :: 0 <= a && a < _k ==> (exists q int :: 0 <= q && q < len(newPublicKeys) && idOf(newPublicKeys[q]) == idOf(addPublicKeys[a]))
+//@   ensures err == nil && r == doc
+//@   ensures isType(doc["publicKey"], "[]any") && len(unbox(doc["publicKey"], "[]any")) >= len(old(pkArr(doc["publicKey"])))
+//@   ensures forall q int :: 0 <= q && q < len(old(pkArr(doc["publicKey"]))) ==> idOf(unbox(unbox(doc["publicKey"], "[]any")[q], "map[string]any")) == idOf(old(pkArr(doc["publicKey"]))[q]) && (unbox(doc["publicKey"], "[]any")[q] == boxed(cast(old(pkArr(doc["publicKey"]))[q], "map[string]any")) || (exists a int :: 0 <= a && a < len(pkArr(entry)) && unbox(doc["publicKey"], "[]any")[q] == boxed(cast(pkArr(entry)[a], "map[string]any"))))
+//@   ensures forall q int :: len(old(pkArr(doc["publicKey"]))) <= q && q < len(unbox(doc["publicKey"], "[]any")) ==> (exists a int :: 0 <= a && a < len(pkArr(entry)) && unbox(doc["publicKey"], "[]any")[q] == boxed(cast(pkArr(entry)[a], "map[string]any")))
+//@   ensures forall p int, q int :: 0 <= p && p < q && q < len(unbox(doc["publicKey"], "[]any")) && q >= len(old(pkArr(doc["publicKey"]))) ==> idOf(unbox(unbox(doc["publicKey"], "[]any")[p], "map[string]any")) != idOf(unbox(unbox(doc["publicKey"], "[]any")[q], "map[string]any"))
+//@   ensures forall a int :: 0 <= a && a < len(pkArr(entry)) ==> (exists q int :: 0 <= q && q < len(unbox(doc["publicKey"], "[]any")) && idOf(unbox(unbox(doc["publicKey"], "[]any")[q], "map[string]any")) == idOf(pkArr(entry)[a]))
+//@   modifies mapOf(doc)
+//
+//@ func applyRemovePublicKeys
+//@   requires doc != nil
+//@   results r, err
+//@   loop 1
+//@     invariant len(newPublicKeys) <= _k
+//@     invariant forall p int :: 0 <= p && p < len(newPublicKeys) ==> 0 <= src(newPublicKeys, p) && src(newPublicKeys, p) < _k && newPublicKeys[p] == boxed(cast(old(pkArr(doc["publicKey"]))[src(newPublicKeys, p)], "map[string]any")) && !(idOf(old(pkArr(doc["publicKey"]))[src(newPublicKeys, p)]) in keysToRemove) && dst(newPublicKeys, src(newPublicKeys, p)) == p
+//@     invariant forall i int :: 0 <= i && i < _k && !(idOf(old(pkArr(doc["publicKey"]))[i]) in keysToRemove) ==> 0 <= dst(newPublicKeys, i) && dst(newPublicKeys, i) < len(newPublicKeys) && src(newPublicKeys, dst(newPublicKeys, i)) == i
+//@     invariant forall p int, q int :: 0 <= p && p < q && q < len(newPublicKeys) ==> src(newPublicKeys, p) < src(newPublicKeys, q)
+//@   ensures err == nil && r == doc
+//@   ensures isType(doc["publicKey"], "[]any") && len(unbox(doc["publicKey"], "[]any")) <= len(old(pkArr(doc["publicKey"])))
+//@   ensures forall p int :: 0 <= p && p < len(unbox(doc["publicKey"], "[]any")) ==> 0 <= src(newPublicKeys, p) && src(newPublicKeys, p) < len(old(pkArr(doc["publicKey"]))) && unbox(doc["publicKey"], "[]any")[p] == boxed(cast(old(pkArr(doc["publicKey"]))[src(newPublicKeys, p)], "map[string]any"))
+//@   ensures forall p int, q int :: 0 <= p && p < q && q < len(unbox(doc["publicKey"], "[]any")) ==> src(newPublicKeys, p) < src(newPublicKeys, q)
+//@   ensures forall p int, a int :: 0 <= p && p < len(unbox(doc["publicKey"], "[]any")) && 0 <= a && a < len(strArr(entry)) ==> idOf(old(pkArr(doc["publicKey"]))[src(newPublicKeys, p)]) != strArr(entry)[a]
+//@   ensures forall i int :: 0 <= i && i < len(old(pkArr(doc["publicKey"]))) && (forall a int :: 0 <= a && a < len(strArr(entry)) ==> strArr(entry)[a] != idOf(old(pkArr(doc["publicKey"]))[i])) ==> (exists p int :: 0 <= p && p < len(unbox(doc["publicKey"], "[]any")) && unbox(doc["publicKey"], "[]any")[p] == boxed(cast(old(pkArr(doc["publicKey"]))[i], "map[string]any")))
+//@   modifies mapOf(doc)
+//
+//@ func sliceToMapServices
+//@   loop 1
+//@     invariant fresh(values) && values != nil
+//@     invariant forall q int :: 0 <= q && q < _k ==> idOf(services[q]) in values
+//@     invariant forall s string :: s in values ==> (exists q int :: 0 <= q && q < _k && idOf(services[q]) == s)
+//@   ensures result != nil && fresh(result)
+//@   ensures forall q int :: 0 <= q && q < len(services) ==> idOf(services[q]) in result
+//@   ensures forall s string :: s in result ==> (exists q int :: 0 <= q && q < len(services) && idOf(services[q]) == s)
+//
+//@ func updateService
+//@   loop 1
+//@     invariant forall q int :: 0 <= q && q < _k ==> services[q] == cond(idOf(old(services[q])) == idOf(service), service, old(services[q]))
+//@     invariant forall q int :: _k <= q && q < len(services) ==> services[q] == old(services[q])
+//@     invariant framed()
+//@   ensures forall q int :: 0 <= q && q < len(services) ==> services[q] == cond(idOf(old(services[q])) == idOf(service), service, old(services[q]))
+//@   modifies elems(services)
+//
+//@ func convertServices
+//@   loop 1
+//@     invariant len(values) == _k
+//@     invariant forall q int :: 0 <= q && q < _k ==> values[q] == boxed(cast(services[q], "map[string]any"))
+//@   ensures len(result) == len(services)
+//@   ensures forall q int :: 0 <= q && q < len(services) ==> result[q] == boxed(cast(services[q], "map[string]any"))
+//
+// add: existing entries keep their position and id (an entry whose id is named by the patch is replaced in place by a
+// patch entry of that id); appended entries come from the patch; no id is introduced twice; every patch id is present
+//@ func applyAddServiceEndpoints
+//@   requires doc != nil
+//@   results r, err
+//@   loop 1
+//@     invariant arrOf(newServices) == 0 || (arrOf(newServices) != arrOf(addServices) && arrOf(newServices) != arrOf(old(svcArr(doc["service"]))))
+//@     invariant len(newServices) >= len(old(svcArr(doc["service"])))
+//@     invariant forall q int :: 0 <= q && q < len(old(svcArr(doc["service"]))) ==> idOf(newServices[q]) == idOf(old(svcArr(doc["service"]))[q]) && (newServices[q] == old(svcArr(doc["service"]))[q] || (exists a int :: 0 <= a && a < _k && newServices[q] == addServices[a]))
+//@     invariant forall q int :: len(old(svcArr(doc["service"]))) <= q && q < len(newServices) ==> (exists a int :: 0 <= a && a < _k && newServices[q] == addServices[a])
+//@     invariant forall q int :: 0 <= q && q < len(newServices) ==> idOf(newServices[q]) in existingServicesMap
+//@     invariant forall s string :: s in existingServicesMap ==> (exists q int :: 0 <= q && q < len(newServices) && idOf(newServices[q]) == s)
+//@     invariant framed()
+//@     invariant forall p int, q int :: 0 <= p && p < q && q < len(newServices) && q >= len(old(svcArr(doc["service"]))) ==> idOf(newServices[p]) != idOf(newServices[q])
+//@     invariant forall a int :: 0 <= a && a < _k ==> (exists q int :: 0 <= q && q < len(newServices) && idOf(newServices[q]) == idOf(addServices[a]))
+//@   ensures err == nil && r == doc
+//@   ensures isType(doc["service"], "[]any") && len(unbox(doc["service"], "[]any")) >= len(old(svcArr(doc["service"])))
+//@   ensures forall q int :: 0 <= q && q < len(old(svcArr(doc["service"]))) ==> idOf(unbox(unbox(doc["service"], "[]any")[q], "map[string]any")) == idOf(old(svcArr(doc["service"]))[q]) && (unbox(doc["service"], "[]any")[q] == boxed(cast(old(svcArr(doc["service"]))[q], "map[string]any")) || (exists a int :: 0 <= a && a < len(svcArr(entry)) && unbox(doc["service"], "[]any")[q] == boxed(cast(svcArr(entry)[a], "map[string]any"))))
+//@   ensures forall q int :: len(old(svcArr(doc["service"]))) <= q && q < len(unbox(doc["service"], "[]any")) ==> (exists a int :: 0 <= a && a < len(svcArr(entry)) && unbox(doc["service"], "[]any")[q] == boxed(cast(svcArr(entry)[a], "map[string]any")))
+//@   ensures forall p int, q int :: 0 <= p && p < q && q < len(unbox(doc["service"], "[]any")) && q >= len(old(svcArr(doc["service"]))) ==> idOf(unbox(unbox(doc["service"], "[]any")[p], "map[string]any")) != idOf(unbox(unbox(doc["service"], "[]any")[q], "map[string]any"))
+//@   ensures forall a int :: 0 <= a && a < len(svcArr(entry)) ==> (exists q int :: 0 <= q && q < len(unbox(doc["service"], "[]any")) && idOf(unbox(unbox(doc["service"], "[]any")[q], "map[string]any")) == idOf(svcArr(entry)[a]))
+//@   modifies mapOf(doc)
+//
+//@ func applyRemoveServiceEndpoints
+//@   requires doc != nil
+//@   results r, err
+//@   loop 1
+//@     invariant len(newServices) <= _k
+//@     invariant forall p int :: 0 <= p && p < len(newServices) ==> 0 <= src(newServices, p) && src(newServices, p) < _k && newServices[p] == boxed(cast(old(svcArr(doc["service"]))[src(newServices, p)], "map[string]any")) && !(idOf(old(svcArr(doc["service"]))[src(newServices, p)]) in servicesToRemove) && dst(newServices, src(newServices, p)) == p
+//@     invariant forall i int :: 0 <= i && i < _k && !(idOf(old(svcArr(doc["service"]))[i]) in servicesToRemove) ==> 0 <= dst(newServices, i) && dst(newServices, i) < len(newServices) && src(newServices, dst(newServices, i)) == i
+//@     invariant forall p int, q int :: 0 <= p && p < q && q < len(newServices) ==> src(newServices, p) < src(newServices, q)
+//@   ensures err == nil && r == doc
+//@   ensures isType(doc["service"], "[]any") && len(unbox(doc["service"], "[]any")) <= len(old(svcArr(doc["service"])))
+//@   ensures forall p int :: 0 <= p && p < len(unbox(doc["service"], "[]any")) ==> 0 <= src(newServices, p) && src(newServices, p) < len(old(svcArr(doc["service"]))) && unbox(doc["service"], "[]any")[p] == boxed(cast(old(svcArr(doc["service"]))[src(newServices, p)], "map[string]any"))
+//@   ensures forall p int, q int :: 0 <= p && p < q && q < len(unbox(doc["service"], "[]any")) ==> src(newServices, p) < src(newServices, q)
+//@   ensures forall p int, a int :: 0 <= p && p < len(unbox(doc["service"], "[]any")) && 0 <= a && a < len(strArr(entry)) ==> idOf(old(svcArr(doc["service"]))[src(newServices, p)]) != strArr(entry)[a]
+//@   ensures forall i int :: 0 <= i && i < len(old(svcArr(doc["service"]))) && (forall a int :: 0 <= a && a < len(strArr(entry)) ==> strArr(entry)[a] != idOf(old(svcArr(doc["service"]))[i])) ==> (exists p int :: 0 <= p && p < len(unbox(doc["service"], "[]any")) && unbox(doc["service"], "[]any")[p] == boxed(cast(old(svcArr(doc["service"]))[i], "map[string]any")))
+//@   modifies mapOf(doc)
+//
+// ---- C17: ApplyPatches works on a deep copy: the caller's document is never written (pure), and a failing patch
+// returns no document at all (atomic) ----
+// JSON round trips produce a new document (assumed: encoding/json allocates the maps it decodes into)
+//@ func deepCopy
+//@   trusted
+//@   results r, err
+//@   ensures err == nil ==> r != nil && fresh(r)
+//@ func applyJSON
+//@   trusted
+//@   results r, err
+//@   ensures err == nil ==> r != nil && fresh(r)
+//@   ensures err != nil ==> r == nil
+//@ func applyRecover
+//@   trusted
+//@   results r, err
+//@   ensures err == nil ==> r != nil && fresh(r)
+//@   ensures err != nil ==> r == nil
+//@ func applyPatch
+//@   requires doc != nil
+//@   results r, err
+//@   ensures err == nil ==> r != nil && (r == doc || fresh(r))
+//@   ensures err != nil ==> r == nil
+//@   modifies mapOf(doc)
+//@ func (*DocumentComposer).ApplyPatches
+//@   results r, err
+//@   loop 1
+//@     invariant result != nil && fresh(result) && framed()
+//@   ensures err == nil ==> r != nil && fresh(r)
+//@   ensures err != nil ==> r == nil
